@@ -26,7 +26,7 @@ def finishSchema (what : String) (model : Option (PT Q)) (spec : List Q → Opti
   let pts ← pPoints
   let some h := td.abs | return .propfail s!"{what}: generated tree is not a consistent arena"
   -- property, direct: the tree evaluates to the textbook function on the sampled inputs (breakpoints, ties)
-  let (bad, inexact) := firstEvalDiff spec pts
+  let (bad, inexact) := firstEvalDiff h spec pts
   if let some (x, want, got) := bad then
     return .propfail s!"{what}: at input {showVec x} the definition gives {showOptVec want} but the tree evaluates to {showEval got}"
   match model with
